@@ -1,6 +1,7 @@
 use crate::ctx::Ctx;
 
 pub mod c07;
+pub mod c08;
 pub mod c09;
 pub mod c10;
 pub mod c11;
@@ -12,6 +13,7 @@ pub mod c17;
 pub fn dispatch(ctx: &mut Ctx) -> bool {
     match ctx.prop.as_str() {
         "C07" => c07::run(ctx),
+        "C08" => c08::run(ctx),
         "C09" => c09::run(ctx),
         "C10" => c10::run(ctx),
         "C11" => c11::run(ctx),
